@@ -596,6 +596,12 @@ def minimize_subcircuits(
             logger.debug("Subcircuit can't be replaced")
             continue
 
+        if new_circuit.gates_number() > circuit.gates_number():
+            # gates of the old cone that had to stay (e.g. equivalent outputs) can make
+            # the "smaller" replacement a net loss.
+            logger.debug("Replacement doesn't reduce the circuit")
+            continue
+
         circuit = new_circuit
         logger.debug("Improved circuit size")
 
